@@ -235,6 +235,8 @@ for t, T, n, uw in TYPES:
         H("c17_%s_direct1" % t, "c17::%s::direct1" % t, unwind=uw + 16, timeout=600, funcs=["%s: Float::{floor,ceil,round,trunc,fract,abs,signum,is_sign_*,is_nan,is_infinite,is_finite,is_normal,classify}, Signed::{abs,signum,is_positive,is_negative}, Zero::is_zero, One::is_one, Neg, ToPrimitive::{to_i64,to_u64,to_f64}, NumCast::from" % T], space_bits=n, bound="every input, forwarder vs inherent on the same input"),
         H("c17_%s_direct2" % t, "c17::%s::direct2" % t, unwind=uw, funcs=["%s: Float::max, Float::min" % T], space_bits=2 * n, bound="every pair"),
         H("c17_%s_from_primitive" % t, "c17::%s::from_primitive" % t, unwind=66, timeout=600, funcs=["%s: FromPrimitive::{from_i8..from_u64,from_f32,from_f64}, Into" % T], space_bits=64, bound="every 64-bit source word (narrower types by truncation)"),
+        H("c17_%s_signed_abs_sub" % t, "c17::%s::signed_abs_sub" % t, unwind=uw, timeout=1800, tier="quick" if t != "p32" else "thorough", funcs=["<%s as num_traits::Signed>::abs_sub" % T], space_bits=2 * n, bound="every pair"),
+        H("c17_%s_from_into" % t, "c17::%s::from_into" % t, unwind=66, timeout=900, funcs=["%s: From<i8|i16|i32|i64|isize|u8|u16|u32|u64|usize|f32|f64>, From<%s> for each of those, from_isize/from_usize/to_isize/to_usize" % (T, T)], space_bits=64 + n, bound="every 64-bit source word (narrower types by truncation) and every posit bit pattern"),
         H("c17_%s_constants" % t, "c17::%s::constants" % t, unwind=4, funcs=["%s: Float/Bounded/Zero/One constants, FloatConst vs MathConsts, type aliases, AssociatedQuire" % T], space_bits=0, bound="constants"),
         )
 reg("C17",
@@ -307,6 +309,18 @@ for es, P, PT in ((2, "pxe2", "PxE2"), (1, "pxe1", "PxE1")):
                                  gen="%d, %d, %s, %d, %d" % (N, op, "true" if same else "false", lo, hi), unwind=34, timeout=max(8 * sec, 900), tier="thorough",
                                  funcs=["%s<%d>: %s" % (PT, N, "+-"[op])], space_bits=2 * N, slice_of="%s<%d> %s over all real pairs" % (PT, N, nm),
                                  bound="real %d-bit operands, effective signs %s, scale distance in [%d,%d]" % (N, "equal" if same else "opposite", lo, hi)))
+# mul_add family for wide N: the alignment partition of c05 (P32_FMA_D is defined with C05 above), thorough only
+C13_WIDE_FMA = [20, 24, 28, 32]
+for es, P, PT in ((2, "pxe2", "PxE2"), (1, "pxe1", "PxE1")):
+    for N in C13_WIDE_FMA:
+        reg("C13", H("c13_%s_fma_special_%d" % (P, N), "c13::%s::fma_special" % P, gen=str(N), unwind=40, timeout=1800, tier="thorough",
+                     funcs=["%s<%d>::mul_add/mul_sub/sub_product" % (PT, N)], space_bits=2 * N + 2, bound="every triple of %d-bit patterns with a zero or NaR operand" % N))
+        for same in (True, False):
+            for lo, hi in P32_FMA_D:
+                nm = "c13_%s_mul_add_%d_%s_d%s_%s" % (P, N, "same" if same else "diff", str(lo).replace("-", "m"), str(hi).replace("-", "m"))
+                reg("C13", H(nm, "c13::%s::fma_slice" % P, gen="%d, 0, %s, %d, %d" % (N, "true" if same else "false", lo, hi), unwind=40, timeout=2400, tier="thorough",
+                             funcs=["%s<%d>::mul_add" % (PT, N)], space_bits=3 * N, slice_of="%s<%d> mul_add over all real triples" % (PT, N),
+                             bound="real %d-bit operands, sign(a*b) %s sign(c), scale(a)+scale(b)-scale(c) in [%d,%d]" % (N, "==" if same else "!=", lo, hi)))
 for op, nm in ((0, "add"), (1, "sub"), (2, "mul")):
     reg("C13", H("c13_pxe1_agree16_" + nm, "c13::pxe1::agree16", gen=str(op), unwind=34, timeout=900, tier="quick", funcs=["PxE1<16> vs P16E1: " + nm], space_bits=32, bound="every pair of 16-bit patterns"))
     reg("C13", H("c13_pxe2_agree32_" + nm, "c13::pxe2::agree32", gen=str(op), unwind=34, timeout=3600, tier="thorough", funcs=["PxE2<32> vs P32E2: " + nm], space_bits=64, bound="every pair of 32-bit patterns"))
@@ -387,6 +401,8 @@ for fi, f in enumerate(["exp", "exp2", "ln", "log2", "sin_pi", "cos_pi", "tan_pi
         reg("C11", H("c11_p16_%s_s%x" % (f, k), "c11::%s" % f, gen=str(k), unwind=40, timeout=900, tier="thorough", rot=(k + fi, 4),
                      funcs=["P16E1::%s" % f], space_bits=12, slice_of="P16E1::%s over all 65536 inputs" % f,
                      bound="every P16E1 input whose top 4 bits are %#x, against the correctly rounded table (oracle/gen_tables.py)" % k))
+    reg("C11", H("c11_p16_%s_edges" % f, "c11::%s" % f, gen="16", unwind=40, timeout=600, funcs=["P16E1::%s" % f], space_bits=8,
+                 bound="the 256 P16E1 inputs within 32 patterns of 0, 1, NaR and -1 (minpos, maxpos, longest regimes, neighbourhood of +-1), against the correctly rounded table; always in quick, whatever the slice rotation"))
 reg("C11",
     H("c11_p8_exp", "c11::exp8", unwind=40, timeout=600, funcs=["P8E0::exp"], space_bits=8, bound="every P8E0 input, against the correctly rounded table"),
     H("c11_p8_ln", "c11::ln8", unwind=40, timeout=600, funcs=["P8E0::ln"], space_bits=8, bound="every P8E0 input, against the correctly rounded table"),
